@@ -1,15 +1,5 @@
-// ---- prelude/io.rs : ASSUMED contracts for std::io (trusted base, DESIGN 2.3 / 3.1) ----
-#[verifier::external_type_specification]
-#[verifier::external_body]
-pub struct ExIoError(std::io::Error);
-
-#[verifier::external_type_specification]
-pub struct ExErrorKind(std::io::ErrorKind);
-
-pub uninterp spec fn io_error_kind(e: &std::io::Error) -> std::io::ErrorKind;
-pub assume_specification[ std::io::Error::kind ](e: &std::io::Error) -> (k: std::io::ErrorKind)
-    ensures k == io_error_kind(e);
-
+//@include prelude/io_error.rs
+// ---- prelude/io.rs : stream model of std::io::Read (trusted base, DESIGN 3.1) ----
 // Stream model of a byte source (DESIGN 3.1).  `stream()` = the bytes this source will still
 // deliver (prophetic, fixed by the peer, independent of segmentation); `failed()` = sticky flag
 // set by an Err.  `read` may return ANY admissible n: every consequence holds for all short-read
